@@ -154,6 +154,20 @@ pub fn gen_c12_case(g: &mut G) -> Value {
             {"type": "object", "properties": {"kind": {"type": "string", "enum": ["b"]}, "payload": {"type": "object", "properties": {"y": {"type": "integer"}}}}, "required": ["kind"]},
             {"type": "object", "properties": {"kind": {"type": "string", "enum": ["c"]}, "payload": {"type": "string", "enum": ["p", "q"]}}, "required": ["kind"]}]});
     }
+    if g.chance(1, 3) {
+        // a tagged union with more than one candidate tag property
+        let tags: Vec<&str> = g.subset(&["kind", "type", "variant", "a_tag"], 2, 3);
+        let tags: Vec<&str> = if tags.len() < 2 { vec!["kind", "type"] } else { tags };
+        let mk = |vals: &[&str], extra: &str| -> Value {
+            let mut props = serde_json::Map::new();
+            for (t, v) in tags.iter().zip(vals.iter().cycle()) {
+                props.insert(t.to_string(), json!({"type": "string", "enum": [format!("{v}_{t}")]}));
+            }
+            props.insert(extra.to_string(), json!({"type": "integer"}));
+            json!({"type": "object", "properties": props, "required": tags})
+        };
+        doc["definitions"]["TwoTags"] = json!({"oneOf": [mk(&["circle"], "radius"), mk(&["square"], "side"), mk(&["line"], "len")]});
+    }
     let settings = settings(g, &doc, true);
     json!({"settings": settings, "doc": doc, "perm": g.u64() % 1_000_000, "cli": false})
 }
